@@ -92,7 +92,7 @@ pub fn any_errno() -> c_int {
 // ----------------------------------------------------- descriptor table ----
 
 pub const NFD: usize = 16;
-pub const NPIPE: usize = 6;
+pub const NPIPE: usize = 10;
 
 /// Identity of the open file description behind a descriptor.
 #[derive(Clone, Copy, PartialEq, Eq)]
@@ -212,6 +212,14 @@ pub unsafe extern "C" fn pipe(fds: *mut c_int) -> c_int {
     vmodel!((NPIPES as usize) < NPIPE, "MODEL/pipe: pipe table exhausted (raise NPIPE)");
     let p = NPIPES;
     NPIPES += 1;
+    // pipelines: each stage's spawn starts with its launch-status pipe
+    if proc_::AUTO_STATUS {
+        if proc_::SKIP_PIPES > 0 {
+            proc_::SKIP_PIPES -= 1;
+        } else if proc_::STATUS_PIPE.is_none() {
+            proc_::STATUS_PIPE = Some(p);
+        }
+    }
     FDT[r] = FdEnt {
         obj: Obj::PipeR(p),
         cloexec: false,
@@ -350,6 +358,8 @@ pub unsafe fn reset() {
     FAULT_FIRED = false;
     FAULT_KIND = 0;
     proc_::reset();
+    comm::reset();
+    time::reset();
     sig::MASK = 0;
     sig::SIGPIPE_IGNORED = true;
 }
